@@ -71,6 +71,7 @@ class Engine:
         if not self.concrete:
             self.solver = z3.Solver()
             self.solver.set("timeout", timeout_ms)
+            self.timeout_ms = timeout_ms
         else:
             self.solver = None
 
@@ -78,6 +79,13 @@ class Engine:
     def check(self, *extra):
         t = time.time()
         r = self.solver.check(*extra)
+        if r == z3.unknown:
+            # one retry with a 5x budget (machine load must not turn a decidable query into 'inconclusive')
+            self.solver.set("timeout", int(getattr(self, "timeout_ms", 20000)) * 5)
+            try:
+                r = self.solver.check(*extra)
+            finally:
+                self.solver.set("timeout", int(getattr(self, "timeout_ms", 20000)))
         self.solver_s += time.time() - t
         self.n_queries += 1
         if r == z3.unknown:
